@@ -234,6 +234,13 @@ def random_config(rng, nmin=4, nmax=7):
         cfg["reconf"] = {"prio": [rng.choice([-3, 0, 1, 4, 9]) for _ in range(n)], "seq": [rng.random() < 0.2 for _ in range(n)],
                          "named": [rng.random() < 0.6 for _ in range(n)], "via": rng.choice(["dict", "json", "yaml"]),
                          "mc": rng.choice([None, None, 1, 2, 3, 4])}
+        if rng.random() < 0.5:
+            # the nodes that get the same new values are addressed through one tag; the same dict may be applied twice
+            cfg["reconf"].update({"bytag": True, "twice": rng.random() < 0.5})
+            if rng.random() < 0.7:
+                pr, sq = rng.choice([0, 4, 9]), rng.random() < 0.6
+                for k in rng.sample(range(n), min(n, rng.randint(2, 3))):
+                    cfg["reconf"]["prio"][k], cfg["reconf"]["seq"][k], cfg["reconf"]["named"][k] = pr, sq, True
     cfg["cid"] = cfg_key(cfg)
     return cfg
 
@@ -256,6 +263,37 @@ def debug_selection_config(rng):
            "seq": [False] * n, "res": [rng.choice(RESOURCES) for _ in range(n)], "bad": [], "act": [None] * n, "truthy": [True] * n,
            "setup": [False] * n, "debug": debug, "run_debug": True, "ops": [["exec", {"t": targets}]],
            "kw": [[False] * len(d) for d in deps], "fn": list(range(1, n + 1)), "flavour": rng.choice(["sync", "async"])}
+    cfg["cid"] = cfg_key(cfg)
+    return cfg
+
+
+def seq_defer_config(rng):
+    """A sequential node that becomes the best ready candidate while two or three pooled nodes are in flight, one of which
+    releases a successor (that may outrank the sequential node) when it finishes: what happens next depends on the order of
+    the completions - the deferral must look at the candidates again after EVERY completion (C05 / C06 / C08 / C09)."""
+    k = rng.choice([2, 2, 3])
+    nsucc = rng.randint(1, 2)
+    n = k + 1 + nsucc
+    deps = [[] for _ in range(n)]
+    prio = [0] * n
+    seq = [False] * n
+    q = k + 1
+    seq[q - 1] = True
+    prio[q - 1] = rng.choice([4, 5])
+    for r in range(1, k + 1):
+        prio[r - 1] = rng.choice([20, 21, 22])
+    for j in range(k + 2, n + 1):
+        deps[j - 1] = [rng.randint(1, k)]
+        prio[j - 1] = rng.choice([9, 7, 6, 2])          # mostly outranks the sequential node
+        seq[j - 1] = rng.random() < 0.15
+    res = [rng.choices(RESOURCES, weights=rng.choice([(8, 0, 1), (3, 4, 1), (0, 8, 1)]))[0] for _ in range(n)]
+    for r in range(1, k + 1):
+        if res[r - 1] == "main":
+            res[r - 1] = "thread"                        # the nodes in flight are pooled
+    cfg = {"n": n, "deps": deps, "mc": k + rng.choice([1, 1, 2]), "prio": prio, "seq": seq, "res": res, "bad": [],
+           "act": [None] * n, "truthy": [True] * n, "setup": [False] * n, "debug": [False] * n, "run_debug": False,
+           "ops": ["call"], "kw": [[False] * len(d) for d in deps], "fn": list(range(1, n + 1)), "profile": False,
+           "flavour": rng.choice(["sync", "sync", "async"])}
     cfg["cid"] = cfg_key(cfg)
     return cfg
 
